@@ -193,6 +193,19 @@ class Filter(object):
                 raise ValueError("Box filter: Please make sure that both "
                                  "'{}' and '{}' are set!".format(fstart, fend))
 
+        # Likewise, a polygon filter whose axes are not available in this
+        # dataset cannot be computed (KeyError). Detect this before any
+        # box filter is recomputed; otherwise the recomputed box filters
+        # would not correspond to `self._old_config` (which is only
+        # updated at the very end) and a later update would not notice.
+        for pf_id in cfg_cur["polygon filters"]:
+            pf = PolygonFilter.get_instance_from_id(pf_id)
+            for ax in pf.axes:
+                if ax not in self.features:
+                    raise KeyError(
+                        "Polygon filter {}: Feature '{}' does not exist "
+                        "in {}!".format(pf_id, ax, rtdc_ds))
+
         for feat in feat2filter:
             fstart = feat + " min"
             fend = feat + " max"
